@@ -352,14 +352,16 @@ pub fn main(args: &[String]) -> i32 {
                     let other = Web3IdAttribute::String(AttributeKind::try_new("forgedvalue".into()).unwrap());
                     match first {
                         CredentialV1::Account(c) => {
-                            c.proof.proof_value.statement_proofs[0] = AtomicProofV1::AttributeValueAlreadyRevealed;
-                            if let (true, AtomicStatementV1::AttributeValue(st)) = (forged, &mut c.subject.statements[0]) {
+                            let k = c.subject.statements.len() - 1;
+                            c.proof.proof_value.statement_proofs[k] = AtomicProofV1::AttributeValueAlreadyRevealed;
+                            if let (true, AtomicStatementV1::AttributeValue(st)) = (forged, &mut c.subject.statements[k]) {
                                 st.attribute_value = other;
                             }
                         }
                         CredentialV1::Identity(c) => {
-                            c.proof.proof_value.statement_proofs[0] = AtomicProofV1::AttributeValueAlreadyRevealed;
-                            if let (true, AtomicStatementV1::AttributeValue(st)) = (forged, &mut c.subject.statements[0]) {
+                            let k = c.subject.statements.len() - 1;
+                            c.proof.proof_value.statement_proofs[k] = AtomicProofV1::AttributeValueAlreadyRevealed;
+                            if let (true, AtomicStatementV1::AttributeValue(st)) = (forged, &mut c.subject.statements[k]) {
                                 st.attribute_value = other;
                             }
                         }
